@@ -16,6 +16,10 @@ def main():
     hooks = json.load(open(os.path.join(VERIF, "lib", "hooks.json")))
     na_reasons = json.load(open(os.path.join(VERIF, "lib", "not_applicable.json")))
     registered = set(json.load(open(os.path.join(VERIF, "lib", "registered.json"))))
+    # thorough tiers that have been run to the end on the unchanged tree (exit 0); for the others only the quick tier is registered
+    # (their thorough configuration exists - `./vcheck <ID> --tier thorough` - but was only slice-tested, see DESIGN 10.3/10.7)
+    tpath = os.path.join(VERIF, "lib", "thorough_ok.json")
+    thorough_ok = set(json.load(open(tpath))) if os.path.exists(tpath) else None
     checks, na, engines = [], [], {}
     for p in props:
         pid = p["id"]
@@ -37,6 +41,8 @@ def main():
             "level_note": getattr(mod, "LEVEL_NOTE", "; ".join(getattr(mod, "ASSUMPTIONS", [])) or "held on the generated cases only"),
             "technique": getattr(mod, "TECHNIQUE", "runtime monitoring: generated workload on the real code under ASan+UBSan with a differential/model oracle"),
         }
+        if thorough_ok is not None and pid not in thorough_ok:
+            del c["thorough_cmd"]
         checks.append(c)
         engines.setdefault(c["engine"], []).append(pid)
     man = {
